@@ -437,7 +437,9 @@ class Connection:
             return
 
         validator = Message.Length.get(msg, _default_length_validator)
-        if not validator(length):
+        # RFC 4271 6.4: an error in a NOTIFICATION cannot be reported back with a NOTIFICATION; a
+        # truncated one is still the peer closing the session (Notification.unpack_message pads it)
+        if not validator(length) and msg != Message.CODE.NOTIFICATION:
             # MUST send the faulty length back
             report = f'{Message.CODE.name(msg)} has an invalid message length of {length}'
             yield length, 0, header, memoryview(b''), NotifyError(1, 2, report)
@@ -482,7 +484,9 @@ class Connection:
             return length, 0, header, memoryview(b''), NotifyError(1, 2, report)
 
         validator = Message.Length.get(msg, _default_length_validator)
-        if not validator(length):
+        # RFC 4271 6.4: an error in a NOTIFICATION cannot be reported back with a NOTIFICATION; a
+        # truncated one is still the peer closing the session (Notification.unpack_message pads it)
+        if not validator(length) and msg != Message.CODE.NOTIFICATION:
             # MUST send the faulty length back
             report = f'{Message.CODE.name(msg)} has an invalid message length of {length}'
             return length, 0, header, memoryview(b''), NotifyError(1, 2, report)
